@@ -497,9 +497,15 @@ func c17RunAll(c *Ctx) {
 
 func init() {
 	addCheck(&Check{ID: "C17", Level: "exploration",
-		Rule: "metamorphic: 10 scenarios (request to backend over UDP and TCP, by Route, by static route, response by Via, pin by INVITE response, in-dialog request, pin lifetime by Expires, NOTIFY terminated, SUBSCRIBE response pinning) x every variant of the subject message with ONE header name respelled (compact where it exists, upper, lower, alternating case, upper-case compact; all headers incl. Content-Length, CSeq, Call-ID, Expires, Subscription-State, Record-Route; thorough: every PAIR of simultaneous respellings), with only ONE line of a multi-line Via/Route/Record-Route respelled (independent respelling) and every re-layout (all compositions, with/without blank after comma) of the Via / Route / Record-Route lists; base and variant run on identically prepared worlds and must agree on every destination of every step (incl. the follow-up in-dialog probes = pinning decision), decoded Via/Route/Record-Route stacks, remaining fields modulo the respelled names, single Content-Length and body; non-trivial = subject relayed in the base run",
-		Run:  c17RunAll,
+		Rule: "metamorphic: every canonical call flow (zz_flows.go) with two Via values on separate lines against the same flow with the values comma-joined (step by step the same destinations); and 11 scenarios (request to backend over UDP and TCP, by Route, by static route, response by Via, pin by INVITE response, in-dialog request, pin lifetime by Expires, NOTIFY terminated, SUBSCRIBE response pinning) x every variant of the subject message with ONE header name respelled (compact where it exists, upper, lower, alternating case, upper-case compact; all headers incl. Content-Length, CSeq, Call-ID, Expires, Subscription-State, Record-Route; thorough: every PAIR of simultaneous respellings), with only ONE line of a multi-line Via/Route/Record-Route respelled (independent respelling) and every re-layout (all compositions, with/without blank after comma) of the Via / Route / Record-Route lists; base and variant run on identically prepared worlds and must agree on every destination of every step (incl. the follow-up in-dialog probes = pinning decision), decoded Via/Route/Record-Route stacks, remaining fields modulo the respelled names, single Content-Length and body; non-trivial = subject relayed in the base run",
+		Run: func(c *Ctx) {
+			c17RunAll(c)
+			RunFlowLayoutPairs(c)
+		},
 		Replay: func(c *Ctx, raw json.RawMessage) string {
+			if cl, ok := ReplayFlow(raw); ok {
+				return cl
+			}
 			var vt c17Variant
 			json.Unmarshal(raw, &vt)
 			for _, sc := range c17Scenarios() {
